@@ -1,6 +1,6 @@
 """Per-property check definitions and the common check driver."""
 import json, os, random, sys, time
-import vlib, gen, gen_dispatch
+import vlib, gen, gen_dispatch, gen_stats
 from vlib import log, ROOT
 
 TRUSTED = [
@@ -45,6 +45,22 @@ def gen_C05_ctx(rng, tier, ctx):
 
 
 reg(Prop('C05', [gen_C05_ctx], 'table-driven vs bit-by-bit coding: every table index at alignments, strict tails, boundary values; constructor diagnostics'))
+def gen_C06(rng, tier, ctx):
+    """len_* functions (all table options) as run-length lists over [0, 2^16), around powers of two and at
+    the domain ends; the length returned by writes and the bits consumed by reads (sessions); the
+    length-dispatch objects (D ... len)."""
+    quick = tier == 'quick'
+    lines = [l for l in gen_stats.gen_C20(rng, tier) if l.startswith('LEN')]
+    for code, flags, p in gen_stats.code_cfgs(rng, quick):
+        top = gen_stats.max_dense(code, p)
+        lines.append('LEN %s %s %s 0 %d' % (code, flags, gen_stats.hx(p), min(1 << 16, top + 1)))
+    sess = gen.gen_C03(rng, 'quick')
+    lines += rng.sample(sess, min(len(sess), 2500 if quick else len(sess)))
+    lines += [l for l in gen_dispatch.gen_C10(rng, tier) if ' len ' in l]
+    return lines
+
+
+reg(Prop('C06', [gen_C06], 'len_* run lengths (formulas and tables) vs published codeword lengths; write returns and read positions; length dispatch', timeout=600))
 reg(Prop('C07', [g(gen.gen_C07)], 'positions and seeks'))
 reg(Prop('C08', [g(gen.gen_C08)], 'bulk copies with continuations'))
 reg(Prop('C09', [g(gen.gen_C09)], 'truncated strict streams vs zero-extended'))
@@ -57,6 +73,10 @@ reg(Prop('C16', [lambda rng, tier, ctx: gen_dispatch.gen_C16(rng, tier)],
 reg(Prop('C11', [g(gen.gen_C11)], 'WordAdapter over fault-injecting Read/Write objects and Cursor'))
 reg(Prop('C13', [g(gen.gen_C13)], 'in-memory word streams vs array+cursor'))
 reg(Prop('C14', [g(gen.gen_C14)], 'counting / tracing wrappers vs bare streams'))
+reg(Prop('C15', [g(gen_stats.gen_C15)], 'CodesStats totals / merges / threads / best code vs the Lean statistics model (generated offsets) '
+         'and the documented sums; the best code is really used to encode', timeout=600))
+reg(Prop('C20', [g(gen_stats.gen_C20)], 'len_* run lengths vs implemented formulas and published codeword lengths; FindChangePoints under a '
+         'watchdog vs the iterator model and the least-change-point specification', timeout=600))
 reg(Prop('C17', [g(gen.gen_C17)], 'zig-zag maps, all widths'))
 reg(Prop('C18', [g(gen.gen_C18)], 'byte-level VByte vs bit-stream VByte and the published code'))
 
